@@ -3,7 +3,9 @@ From Coq Require Import ZArith.
 From UP Require Import Base.Chars Model.Uri Model.Common Model.Compare Model.Resolve.
 Local Open Scope N_scope.
 
-(* uriEqualsAuthority: user info, port, then the host by kind *)
+(* uriEqualsAuthority: user info, port, then the host by kind.  A registered name (no IP data in the
+   first URI) is only compared with a host that has no IP data either: an IP literal with the same text,
+   e.g. "[v1.x]" against the registered name "v1.x", is a different host *)
 Definition equals_authority (a b : uri) : bool :=
   range_eqb (userInfo a) (userInfo b) && range_eqb (portText a) (portText b) &&
   match ip4 a with
@@ -14,7 +16,9 @@ Definition equals_authority (a b : uri) : bool :=
     | None =>
       match ipFuture a with
       | Some _ => is_some (ipFuture b) && range_eqb (ipFuture a) (ipFuture b)
-      | None => range_eqb (hostText a) (hostText b)
+      | None =>
+        if is_some (ip4 b) || is_some (ip6 b) || is_some (ipFuture b) then false
+        else range_eqb (hostText a) (hostText b)
       end
     end
   end.
